@@ -23,6 +23,11 @@ impl World {
         // compete for the retention slots), no interactive confirmation
         let cfg = CheckpointConfig::default().with_max_checkpoints(max_cp).with_auto_checkpoint(false).with_interactive_confirm(false);
         router.init_checkpoint_with_config(cfg).map_err(|e| Fail::new("setup-failed", format!("init_checkpoint: {e}")))?;
+        // with an odd limit the router also answers repeated reads from its query cache: what the
+        // battery reads after a rollback must not be an answer cached before it
+        if max_cp % 2 == 1 {
+            router.init_cache();
+        }
         Ok(Self { router, trace: Vec::new(), tracing: std::env::var("NV_C08_TRACE").is_ok() })
     }
 
